@@ -661,9 +661,10 @@ func getKeyspaceMetadata(session *Session, keyspaceName string) (*KeyspaceMetada
 func getTableMetadata(session *Session, keyspaceName string) ([]TableMetadata, error) {
 
 	var (
-		iter *Iter
-		scan func(iter *Iter, table *TableMetadata) bool
-		stmt string
+		iter      *Iter
+		scan      func(iter *Iter, table *TableMetadata) bool
+		stmt      string
+		tablesErr error
 
 		keyAliasesJSON    []byte
 		columnAliasesJSON []byte
@@ -677,7 +678,8 @@ func getTableMetadata(session *Session, keyspaceName string) ([]TableMetadata, e
 		WHERE keyspace_name = ?`
 
 		switchIter := func() *Iter {
-			iter.Close()
+			// the outcome of the tables query must not be lost when the scan moves on to the views
+			tablesErr = iter.Close()
 			stmt = `
 				SELECT
 					view_name
@@ -784,6 +786,9 @@ func getTableMetadata(session *Session, keyspaceName string) ([]TableMetadata, e
 	}
 
 	err := iter.Close()
+	if err == nil {
+		err = tablesErr
+	}
 	if err != nil && err != ErrNotFound {
 		return nil, fmt.Errorf("error querying table schema: %v", err)
 	}
